@@ -437,15 +437,21 @@ def _mentions(v, sym):
 
 
 def unsigned_sym(cx, fn, st, local, bb):
-    key = (fn.name, "u", local, bb)
+    ver = getattr(cx, "cur_ver", "w")
+    key = (fn.name, "u", local, bb, ver)
     s_ = cx.callsym.get(key)
     if s_ is None:
-        s_ = cx.fresh("u_%s@bb%d" % (fn.debug_names().get(local, "_%d" % local), bb))
+        s_ = cx.fresh("u_%s@bb%d%s" % (fn.debug_names().get(local, "_%d" % local), bb, "" if ver == "w" else "#%s" % ver))
         cx.callsym[key] = s_
-    havoc(st, s_)
+    if ver == "w":
+        havoc(st, s_)
     l = Lin.sym(s_)
     st.add(l)
     return V_int(l)
+
+
+def _widened(st):
+    return st.vals.get("#wide", ("flag", False))[1]
 
 
 def loop_variant(fn, header, succ, index):
@@ -531,6 +537,7 @@ class Summary:
 def analyze(cx, fn, args, facts, want_edges=False, init_vals=None):
     """args: list of abstract values for parameters _1.. ; facts: initial constraints"""
     init = State({i + 1: v for i, v in enumerate(args) if v != UNKNOWN}, facts)
+    top_level = cx.depth == 0
     if init_vals:
         init.vals.update(init_vals)
     blocks = fn.blocks
@@ -556,7 +563,7 @@ def analyze(cx, fn, args, facts, want_edges=False, init_vals=None):
     # trace partitioning: up to K abstract states are kept per block (one per incoming path shape)
     # instead of joining at every merge point, so that `let x = if c { a } else { b }` keeps the
     # path facts of each arm.  Loop headers always join (termination of the fixpoint).
-    K = cx.hooks.get("partitions", 6)
+    K = cx.hooks.get("partitions", 6) if cx.depth == 0 else 2
     index = {b: i for i, b in enumerate(rpo)}
     headers = set()
     for b in rpo:
@@ -585,7 +592,22 @@ def analyze(cx, fn, args, facts, want_edges=False, init_vals=None):
                     uniq.append(s_)
             inc = uniq
             pkey = cx.hooks.get("partition_key")
-            if bb in tail and len(inc) <= K:
+            PEEL = cx.hooks.get("peel", 0) if top_level else 0
+            peeled = []
+            if PEEL and bb in headers:
+                rest = []
+                for s_ in inc:
+                    n_ = s_.vals.get("#peel", ("flag", 0))[1]
+                    if n_ < PEEL:
+                        c_ = s_.copy()
+                        c_.vals["#peel"] = ("flag", n_ + 1)
+                        peeled.append(c_)
+                    else:
+                        rest.append(s_)
+                inc = rest
+            if not inc:
+                todo = []
+            elif bb in tail and len(inc) <= K:
                 todo = [s_.copy() for s_ in inc]
             elif pkey is not None:
                 # loop headers / overfull blocks: join only states that agree on the finite partition key
@@ -606,12 +628,20 @@ def analyze(cx, fn, args, facts, want_edges=False, init_vals=None):
                 for s_ in inc[1:]:
                     acc = join(cx, fn.name, bb, acc, s_)
                 todo = [acc]
+            if PEEL and bb in headers:
+                for s_ in todo:
+                    s_.vals["#wide"] = ("flag", True)
+                    s_.vals["#peel"] = ("flag", PEEL)
+            todo = peeled + todo
             edge_out = []
             blk = blocks[bb]
             if "block" in cx.hooks:
                 for st in todo:
                     cx.hooks["block"](cx, fn, bb, st, bb in headers)
             for st in todo:
+                n_ = st.vals.get("#peel", ("flag", 0))[1]
+                if top_level:
+                    cx.cur_ver = "w" if (not cx.hooks.get("peel", 0) or _widened(st)) else n_
                 for s in blk["s"]:
                     if s["k"] != "assign":
                         continue
@@ -728,7 +758,7 @@ def analyze(cx, fn, args, facts, want_edges=False, init_vals=None):
                     edge_out.append((t["resume"], st))
             per = {}
             for tgt, s in edge_out:
-                if tgt in tail or cx.hooks.get("partition_key") is not None:
+                if tgt in tail or cx.hooks.get("partition_key") is not None or (cx.hooks.get("peel", 0) and top_level):
                     per.setdefault(tgt, []).append(s)
                 else:
                     per[tgt] = [s] if tgt not in per else [join(cx, fn.name, tgt, per[tgt][0], s)]
@@ -826,18 +856,21 @@ def _sl(v):
 
 
 def call_sym(cx, fn, bb, nm):
-    key = (fn.name, bb, nm)
+    ver = getattr(cx, "cur_ver", "w")
+    key = (fn.name, bb, nm, ver)
     s = cx.callsym.get(key)
     if s is None:
-        s = cx.fresh("%s@bb%d" % (nm, bb))
+        s = cx.fresh("%s@bb%d%s" % (nm, bb, "" if ver == "w" else "#%s" % ver))
         cx.callsym[key] = s
     return Lin.sym(s)
 
 
 def call_val(cx, fn, bb, t, st, reports):
-    for key, s_ in list(cx.callsym.items()):
-        if key[0] == fn.name and key[1] == bb and key[2] != "u":
-            havoc(st, s_)
+    ver = getattr(cx, "cur_ver", "w")
+    if ver == "w":
+        for key, s_ in list(cx.callsym.items()):
+            if len(key) == 4 and key[0] == fn.name and key[1] == bb and key[3] == "w":
+                havoc(st, s_)
     r = _call_val(cx, fn, bb, t, st, reports)
     invalidate_containers(cx, fn, st, t, last(norm(t["f"].get("inst") or t["f"].get("def") or "")))
     return r
@@ -924,13 +957,10 @@ def _call_val(cx, fn, bb, t, st, reports):
         st.add(c_)
         st.add(l.sub(c_))
         return V_int(c_)
-    if name in ("take_while", "filter", "map", "skip", "take") and a and a[0][0] == "iter":
-        # an iterator yielding at most as many items as the underlying one
-        l = a[0][1]
-        c_ = sym("iterlen")
-        st.add(c_)
-        st.add(l.sub(c_))
-        return ("iter", c_)
+    if name in ("take_while", "filter", "map", "skip", "take", "skip_while", "inspect", "step_by") and a and a[0][0] == "iter":
+        # an iterator yielding at most as many items as the underlying one: every model of ("iter", l)
+        # only uses l as an upper bound on the number of items
+        return a[0]
     if name in ("find_map", "with_borrow_mut", "with_borrow", "map_or", "is_some_and", "is_none_or", "and_then", "unwrap_or_else") and len(a) > 1 and a[1][0] == "closure":
         c = cx.p.fns.get(a[1][1])
         if c is not None and cx.depth < 4:
